@@ -219,8 +219,204 @@ def mirror_body(b):
     return done
 
 
+def alias_body(b, types=None):
+    """`let complete = *this.complete + 1; *this.complete = complete; if complete == len {..}`: a single-definition local
+    that is stored into a field in the very next statement *is* that field from then on, as long as the field is not
+    written again before the local's last use.  The store takes the value directly and the later reads of the local read
+    the field."""
+    blocks = b["blocks"]
+    argc = b.get("argc", 0)
+    ndefs = {}
+    for blk in blocks:
+        for s in blk["stmts"]:
+            if s["k"] == "assign" and not s["lhs"]["p"]:
+                ndefs[s["lhs"]["l"]] = ndefs.get(s["lhs"]["l"], 0) + 1
+        d = blk["term"].get("dest")
+        if _is_place(d) and not d["p"]:
+            ndefs[d["l"]] = ndefs.get(d["l"], 0) + 1
+    succ = {}
+    for i, blk in enumerate(blocks):
+        t = blk["term"]
+        out = []
+        for k in ("t", "imag", "otherwise", "drop", "real"):
+            if isinstance(t.get(k), int):
+                out.append(t[k])
+        for v in t.get("vals") or []:
+            out.append(v[1])
+        succ[i] = out
+
+    def reach(starts, avoid=()):
+        seen = set()
+        work = list(starts)
+        while work:
+            x = work.pop()
+            if x in seen or x >= len(blocks) or x in avoid:
+                continue
+            seen.add(x)
+            work.extend(succ[x])
+        return seen
+    T = None
+    done = 0
+    for bi_, blk in enumerate(blocks):
+        st = blk["stmts"]
+        si = 0
+        while si < len(st):
+            s = st[si]
+            si += 1
+            if not (s["k"] == "assign" and not s["lhs"]["p"] and s["lhs"]["l"] > argc and ndefs.get(s["lhs"]["l"]) == 1
+                    and b["locals"][s["lhs"]["l"]].get("user")):
+                continue
+            if s["rv"]["k"] not in ("binop", "use", "unop") or (s["rv"]["k"] == "use" and "c" not in s["rv"]["op"] and not (s["rv"]["op"].get("cp") or s["rv"]["op"].get("mv") or {}).get("p")):
+                continue
+            L = s["lhs"]["l"]
+            j = si
+            while j < len(st) and st[j]["k"] in ("live", "dead"):
+                j += 1
+            # `P = copy L` directly, or through one temporary
+            wb = None
+            tmp = None
+            if j < len(st) and st[j]["k"] == "assign" and st[j]["lhs"]["p"] and st[j]["rv"]["k"] == "use":
+                o = st[j]["rv"]["op"]
+                pl = o.get("cp") or o.get("mv")
+                if pl is not None and not pl["p"] and pl["l"] == L:
+                    wb = j
+            elif j + 1 < len(st) and st[j]["k"] == "assign" and not st[j]["lhs"]["p"] and st[j]["rv"]["k"] == "use" and ndefs.get(st[j]["lhs"]["l"]) == 1:
+                o = st[j]["rv"]["op"]
+                pl = o.get("cp") or o.get("mv")
+                if pl is not None and not pl["p"] and pl["l"] == L:
+                    tmp = st[j]["lhs"]["l"]
+                    k2 = j + 1
+                    while k2 < len(st) and st[k2]["k"] in ("live", "dead"):
+                        k2 += 1
+                    if k2 < len(st) and st[k2]["k"] == "assign" and st[k2]["lhs"]["p"] and st[k2]["rv"]["k"] == "use":
+                        o2 = st[k2]["rv"]["op"]
+                        pl2 = o2.get("cp") or o2.get("mv")
+                        if pl2 is not None and not pl2["p"] and pl2["l"] == tmp:
+                            wb = k2
+            if wb is None:
+                continue
+            P = st[wb]["lhs"]
+            if any(isinstance(e, dict) and "i" in e and ndefs.get(e["i"], 0) > 1 for e in P["p"]) or ndefs.get(P["l"], 0) > 1:
+                continue
+            pk = _pkey(P)
+            same = lambda pl: _pkey(pl) == pk
+            if types is not None:
+                try:
+                    if T is None:
+                        from .copysync import _terms
+                        T = _terms(b, types)
+                    pterm = T.of_place(P)
+                    same = lambda pl, pterm=pterm, pk=pk: _pkey(pl) == pk or (pl["p"] and T.of_place(pl) == pterm)
+                except Exception:
+                    pass
+            # every occurrence of L is a plain operand; no reference to L; other writes to P do not precede a use of L
+            ok = True
+            use_blocks = set()
+            for b2, blk2 in enumerate(blocks):
+                for s2i, s2 in enumerate(blk2["stmts"]):
+                    if s2["k"] in ("live", "dead") or (b2 == bi_ and s2 is s):
+                        continue
+                    if s2["k"] == "assign" and s2["rv"]["k"] in ("ref", "rawptr") and s2["rv"]["place"]["l"] == L:
+                        ok = False
+                    if s2["k"] == "assign" and s2["lhs"]["l"] == L:
+                        ok = False
+                    ops = []
+                    _operands(s2.get("rv", {}) if s2["k"] == "assign" else s2, ops)
+                    for o in ops:
+                        pl = o.get("cp") or o.get("mv")
+                        if pl["l"] == L:
+                            if pl["p"]:
+                                ok = False
+                            elif not (b2 == bi_ and s2i <= wb):
+                                use_blocks.add(b2)
+
+                    def chk(pl):
+                        nonlocal ok
+                        for e in pl["p"]:
+                            if isinstance(e, dict) and e.get("i") == L:
+                                ok = False
+                    _walk_places(s2, chk)
+                ops = []
+                _operands(blk2["term"], ops)
+                for o in ops:
+                    pl = o.get("cp") or o.get("mv")
+                    if pl["l"] == L:
+                        if pl["p"]:
+                            ok = False
+                        else:
+                            use_blocks.add(b2)
+            if not ok:
+                continue
+            other_w = []
+            for b2, blk2 in enumerate(blocks):
+                for s2i, s2 in enumerate(blk2["stmts"]):
+                    if s2["k"] == "assign" and s2["lhs"]["p"] and same(s2["lhs"]) and not (b2 == bi_ and s2i == wb):
+                        other_w.append(b2)
+                    if s2["k"] == "assign" and s2["rv"]["k"] in ("ref", "rawptr") and s2["rv"].get("mut") and s2["rv"]["place"]["p"] and same(s2["rv"]["place"]):
+                        other_w.append(b2)
+            after = reach(succ[bi_]) | {bi_}
+            bad = False
+            for w in other_w:
+                if w == bi_:
+                    bad = True
+                elif w in after:
+                    # a use reached from the other write without passing the definition of L again
+                    rw = reach(succ[w], avoid={bi_}) | {w}
+                    if use_blocks & rw:
+                        bad = True
+            if bad:
+                continue
+            # rewrite: P = rv; uses of L -> copy P
+            Pc = copy.deepcopy(P)
+            new_stmt = dict(s, lhs=copy.deepcopy(P), aliased=L)
+            drop = {wb}
+            if tmp is not None:
+                drop.add(j)
+            idx_s = st.index(s)
+            new = []
+            for k3, x in enumerate(st):
+                if k3 == idx_s:
+                    new.append(new_stmt)
+                elif k3 in drop:
+                    continue
+                else:
+                    new.append(x)
+            blk["stmts"] = new
+            st = new
+            for b2, blk2 in enumerate(blocks):
+                for s2 in blk2["stmts"]:
+                    if s2 is new_stmt or s2["k"] in ("live", "dead"):
+                        continue
+                    ops = []
+                    _operands(s2.get("rv", {}) if s2["k"] == "assign" else s2, ops)
+                    for o in ops:
+                        key = "cp" if "cp" in o else "mv"
+                        if o[key]["l"] == L and not o[key]["p"]:
+                            del o[key]
+                            o["cp"] = copy.deepcopy(Pc)
+                ops = []
+                _operands(blk2["term"], ops)
+                for o in ops:
+                    key = "cp" if "cp" in o else "mv"
+                    if o[key]["l"] == L and not o[key]["p"]:
+                        del o[key]
+                        o["cp"] = copy.deepcopy(Pc)
+                blk2["stmts"] = [x for x in blk2["stmts"] if not (x["k"] in ("live", "dead") and x.get("l") == L)]
+            b.setdefault("aliases", []).append(L)
+            done += 1
+            si = 0
+            st = blk["stmts"]
+            ndefs[L] = 0
+    return done
+
+
 def fold_mirrors(facts):
     total = 0
+    for b in facts["bodies"]:
+        try:
+            total += alias_body(b, facts.get("types"))
+        except (KeyError, TypeError, IndexError, ValueError):
+            pass
     for b in facts["bodies"]:
         try:
             total += mirror_body(b)
